@@ -55,11 +55,7 @@ func Leaked(before GSnap, settle time.Duration) []Goroutine {
 // frame.
 func LeakClass(g Goroutine) string {
 	if m := frameRe.FindStringSubmatch(g.Stack); m != nil {
-		f := m[1]
-		if i := strings.Index(f, "("); i > 0 && !strings.HasPrefix(f[i:], "(*") {
-			f = f[:i]
-		}
-		return f
+		return CleanFrame(m[1])
 	}
 	return "?"
 }
